@@ -111,8 +111,12 @@ def py_issue(w, cfg, op, call):
             elif form == "swapped" and arr.dtype.itemsize > 1:
                 # same values in the opposite byte order: the writer has to convert to the stored order
                 arr = arr.astype(arr.dtype.newbyteorder("S"))
+            elif form == "onedim" and cfg["nsub"] == 1 and arr.ndim == 2 and arr.shape[1] in (1, 2) and arr.dtype.names is None \
+                    and (arr.shape[1] == 1 or (cfg["cplx"] and cfg.get("form") == "interleaved")):
+                # documented: a 1-D array for a single-subchannel writer (for interleaved I/Q input: 2N values for N samples)
+                arr = arr.reshape(-1)
             elif form == "onedim" and cfg["nsub"] == 1 and arr.ndim == 2 and arr.shape[1] == 1:
-                arr = arr.reshape(-1)  # documented: a 1-D array for a single-subchannel writer
+                arr = arr.reshape(-1)
             if op["op"] == "w":
                 if form == "defnext" and op["idx"] == w.get_next_available_sample():
                     ret = w.rf_write(arr)  # next_sample=None: "the next available sample after previous writes"
